@@ -24,6 +24,8 @@ async fn run(mut sim: Sim, _seed: u64) -> Result<Value, String> {
         let mut config = base_config();
         config.shutdown_idle_timeout_ms = Some(idle_wait);
         config.connect_timeout_ms = Some([500u64, 2_000, 6_000][sim.rng.gen_range(0..3)]);
+        // the cap on connections being established: the hanging dial below may be all it allows
+        config.max_concurrent_outstanding_connecting_connections = [None, Some(1), Some(2)][sim.rng.gen_range(0..3)];
         quic(&mut config).max_idle_timeout_ms = Some(10_000);
         quic(&mut config).keep_alive_interval_ms = Some(3_000);
         sim.add_node(NodeCfg { key: k, name: "net".into(), alt: None, config, bind: None }).map_err(|e| e.to_string())?;
